@@ -356,7 +356,7 @@ func (r *countingReporter) ReportEntry(nextCookie uint64, name path.Component, c
 
 var stressFlavours = []string{"opposite", "parent-child", "enter-remove", "bulk", "mixed"}
 
-func vfsStressRound(r *ev.Run, rc *reach, i int) {
+func vfsStressRound(r *ev.Run, rc *reach, i int) roundVerdict {
 	rng := r.Rand(14, 7, uint64(i))
 	flavour := stressFlavours[i%len(stressFlavours)]
 	nWorkers := 8 + rng.IntN(17)
@@ -394,7 +394,7 @@ func vfsStressRound(r *ev.Run, rc *reach, i int) {
 	}
 	r.Count("vfs_stress_calls", int(progress.Load()))
 	if v != roundFinished {
-		return
+		return v
 	}
 	r.Situation("stress-round-finished:" + flavour)
 	// Quiescent: every directory ever seen must be unlocked.
@@ -422,6 +422,7 @@ func vfsStressRound(r *ev.Run, rc *reach, i int) {
 			witness{Seed: r.Seed(), Phase: "vfs-stress", Case: i, Cfg: cfg.String(), Held: held})
 	}
 	r.Hash(ev.HashOf("vfs-stress", i, flavour, cfg.String(), nWorkers, len(stats.statuses), total > 0), total > 0)
+	return v
 }
 
 // idleInvokerRound: Acquire/Release from many goroutines with failing and
@@ -485,19 +486,37 @@ func idleInvokerRound(r *ev.Run, rc *reach, i int) {
 }
 
 func runStress(r *ev.Run, rc *reach) {
-	nVFS := r.Pick(60, 1200)
-	for i := 0; i < nVFS; i++ {
-		vfsStressRound(r, rc, i)
-	}
-	nNFS := r.Pick(24, 480)
-	for i := 0; i < nNFS; i++ {
-		nfsStressRound(r, rc, i)
-	}
-	nSmall := r.Pick(10, 200)
-	for i := 0; i < nSmall; i++ {
-		lockPileRound(r, rc, i)
-		idleInvokerRound(r, rc, i)
-	}
+	// A family of rounds is abandoned after its second hang: every further
+	// round would most likely block on the same defect, and the goroutines
+	// of a hung round can never be reclaimed.
+	timed(r, "vfs-stress", func() {
+		nVFS := r.Pick(40, 1200)
+		hangs := 0
+		for i := 0; i < nVFS && hangs < 2; i++ {
+			if vfsStressRound(r, rc, i) != roundFinished {
+				hangs++
+			}
+		}
+		if hangs >= 2 {
+			r.Count("vfs_stress_rounds_skipped_after_two_hangs", 1)
+		}
+	})
+	timed(r, "nfs-stress", func() {
+		nNFS := r.Pick(16, 480)
+		hangs := 0
+		for i := 0; i < nNFS && hangs < 2; i++ {
+			if nfsStressRound(r, rc, i) != roundFinished {
+				hangs++
+			}
+		}
+	})
+	timed(r, "lockpile+cleaner-stress", func() {
+		nSmall := r.Pick(10, 200)
+		for i := 0; i < nSmall; i++ {
+			lockPileRound(r, rc, i)
+			idleInvokerRound(r, rc, i)
+		}
+	})
 	r.Floor("lockpile-backoff", 50)
 	r.Floor("overlap:opposite-direction-renames", 50)
 	r.Floor("overlap:parent-to-child-rename-racing-directory-rename", 20)
